@@ -198,10 +198,11 @@ def starving_chooser(seed, victim_role="user", p_timeout=0.7, **kw):
     base = random_chooser(seed, **kw)
 
     def choose(kern, cands):
-        others = [i for i, (kind, x) in enumerate(cands) if kind == "run" and getattr(x, "role", None) != victim_role]
+        victims = victim_role if isinstance(victim_role, (tuple, set, frozenset)) else (victim_role,)
+        others = [i for i, (kind, x) in enumerate(cands) if kind == "run" and getattr(x, "role", None) not in victims]
         if others:
             return rng.choice(others)
-        touts = [i for i, (kind, x) in enumerate(cands) if kind == "timeout" and getattr(x, "role", None) != victim_role
+        touts = [i for i, (kind, x) in enumerate(cands) if kind == "timeout" and getattr(x, "role", None) not in victims
                  and x.pending[0] != "sleep"]
         if touts and rng.random() < p_timeout:
             return rng.choice(touts)
